@@ -637,7 +637,7 @@ func init() {
 			nCold = 16
 		}
 		for i := 0; i < nCold; i++ {
-			us = append(us, coldUnitN("nasConvert", i, 128, "getters", "getters", "ident"))
+			us = append(us, coldUnitN("nasConvert", i, 128, "getters", "getters", "ident", "bad-input"))
 		}
 		us = append(us, coldEntryUnits(tier, "nasConvert", "ident")...)
 		return us
